@@ -281,6 +281,23 @@ pub fn gen_c14(tier: Tier, seed: u64, em: &mut Emitter) {
 
 /// polls during which the timeout expires (the clock moves between two readings in one call)
 pub fn gen_straddle(r: &mut Rng, em: &mut Emitter) {
+    // very large time steps while a value is pending (elapsed time beyond 2^62 and beyond 2^63 ns:
+    // signed nanosecond arithmetic), then polls.  Single steps stay below 2^62 (the record
+    // format's integers are OCaml's) and their sum below 2^64 (the mock clock is a saturating u64).
+    for &timeout in &[0i64, 5, 1_000_000, 1 << 60] {
+        for &n in &[1usize, 2, 3, 4] {
+            for &first in &[6i64, 38] {
+                let c = r.below(16) as i64;
+                let st = 176 + c;
+                let mut h = vec![timeout, 0, st, 99, 3, 0, st, 98, 36, 0, st, first, 117];
+                for _ in 0..n {
+                    h.extend_from_slice(&[4, 3i64 << 60, 0, 0]);
+                }
+                h.extend_from_slice(&[3, c, 0, 0, 0, st, 44 - first, 9, 4, 7, 0, 0, 3, c, 0, 0]);
+                em.emit_k("huge-time-steps", 140, h);
+            }
+        }
+    }
     for &timeout in &[1i64, 2, 5, 1000, 1_000_000, 1_234_567_891] {
         for which in 0..2 {
             for _ in 0..4 {
